@@ -26,6 +26,7 @@ theorem C18_begin (s : St) :
       | some c => if c.state.isReady then sendDpr s cid else s
       | none => s) { s with stopping := true } := by
   simp only [stopBegin, Bool.false_eq_true, if_false]
+  rfl
 
 /-- No watchdogs and no dialling while stopping (from C11 / C12). -/
 theorem C18_quiet_while_stopping (s : St) (cid : Nat) (h : s.stopping = true) :
